@@ -477,6 +477,12 @@ def r7(ctx):
         ctx.check(P, rule, "open chooses slot 1 when the bits are equal, slot 2 otherwise", good, "equal bits -> first header, different -> second", "header choice by bits is wired differently", key="C06|C06.R7|open|slot choice")
 
 
+def r7b(ctx):
+    """header slots are chosen by their header bits, also when only one slot is valid (shared with C07.R5)"""
+    from . import c07
+    c07.r5(ctx, P, "C06.R7")
+
+
 def r8(ctx):
     from . import c09
     c09.loops_can_exit(ctx, P, "C06.R8", [OPLOG_OPEN])
@@ -493,7 +499,7 @@ def r8(ctx):
         ctx.check(P, "C06.R8", "the partial bit of every entry is recorded", used, "partials.push(entry_outcome.partial_bit)", "partial bit of entry leaders is not recorded")
 
 
-RULES = [r1, r2, r3, r4, r5, r6, r7, r8]
+RULES = [r1, r2, r3, r4, r5, r6, r7, r7b, r8]
 EXPLANATION = ("C06 (files follow the JavaScript on-disk layout): decides agreement of sibling tables — size/encode/decode of every persisted type against the reference field order and byte shapes "
                "(R1), Entry flag bits set by the encoder vs tested by the decoder vs the table 1/2/4/8 (R2), leader bit layout of writer vs reader (shift 2, header bit 1, partial bit 2, checksum over "
                "bytes [4, 8+len), zones 4/4) (R3), slot table 0/4096/8192 and the offsets of append / truncate / header writes (R4), bitfield page stride of writer vs reader and page-relative little-endian "
